@@ -72,7 +72,7 @@ pub struct SchedState {
     pub spurious_pct: u32,
     last: usize,
     /// async timers registered by simulated executors: (deadline, waker)
-    pub wakers: Vec<(Duration, Waker)>,
+    pub wakers: Vec<(Duration, Waker, usize)>,
 }
 
 pub struct Sched {
@@ -271,11 +271,11 @@ impl Sched {
                                 t.state = TState::Runnable;
                             }
                         }
-                        let due: Vec<Waker> = {
+                        let due: Vec<(Waker, usize)> = {
                             let mut due = Vec::new();
-                            st.wakers.retain(|(d, w)| {
+                            st.wakers.retain(|(d, w, tid)| {
                                 if *d <= now {
-                                    due.push(w.clone());
+                                    due.push((w.clone(), *tid));
                                     false
                                 } else {
                                     true
@@ -283,8 +283,15 @@ impl Sched {
                             });
                             due
                         };
-                        for w in due {
+                        for (w, tid) in due {
+                            // the waker only touches its executor's ready queue; the executor thread is unparked here
                             w.wake();
+                            if let Some(t) = st.threads.get_mut(tid) {
+                                if matches!(t.state, TState::Parked { .. }) {
+                                    t.state = TState::Runnable;
+                                    t.timed_out = false;
+                                }
+                            }
                         }
                         continue;
                     }
@@ -441,7 +448,8 @@ impl Sched {
     }
 
     pub fn register_waker(&self, deadline: Duration, waker: &Waker) {
-        self.lock().wakers.push((deadline, waker.clone()));
+        let tid = my_tid();
+        self.lock().wakers.push((deadline, waker.clone(), tid));
     }
 
     pub fn spawn(self: &Arc<Self>, name: String, f: Box<dyn FnOnce() + Send + 'static>) -> io::Result<(usize, thread::JoinHandle<()>)> {
